@@ -276,6 +276,20 @@ func checkMethod(c methodCase) evid.Outcome {
 			}
 		}
 	}
+	if len(f.FOpts) > 0 {
+		// and with a payload on that port 0: EncryptFRMPayload on such a value refuses, or transforms the payload with the
+		// specification keystream - it never reports success with the bytes as they were
+		g := *f
+		g.FPort, g.FRM = 0, append([]byte{0x02, 0x03, 0x07}[:1+int(f.FCnt%3)], f.FOpts...)
+		if q, err := gen.ToLib(&g, false); err == nil {
+			if err := q.EncryptFRMPayload(gen.LibKey(k)); err == nil {
+				after, _ := gen.PayloadsToBytes(up, q.MACPayload.(*lorawan.MACPayload).FRMPayload)
+				if w := ref.Keystream(k, up, g.DevAddr, g.FCnt, g.FRM); !bytes.Equal(after, w) {
+					return evid.Fail("PHYPayload.EncryptFRMPayload on a frame value with FOpts %x, FPort 0 and the payload %x (uplink=%v FCnt=%#x) reports success with %x; the specification keystream gives %x", g.FOpts, g.FRM, up, g.FCnt, after, w)
+				}
+			}
+		}
+	}
 	if err := p.DecryptFOpts(gen.LibKey(k)); err != nil {
 		return evid.Fail("PHYPayload.DecryptFOpts: %v", err)
 	}
